@@ -82,7 +82,12 @@ func load(repo string, rels []string, specDir string) (*Loaded, error) {
 	}
 	ld.pkgs = pkgs
 	prog, _ := ssautil.AllPackages(pkgs, ssa.InstantiateGenerics)
-	prog.Build()
+	// bodies are needed only for the module's own packages: library calls are interpreted by models
+	for _, p := range prog.AllPackages() {
+		if strings.HasPrefix(p.Pkg.Path(), modulePath) {
+			p.Build()
+		}
+	}
 	eng := &Engine{prog: prog, pkgs: map[string]*ssa.Package{}, contracts: map[*ssa.Function]*FuncContract{}, cfuncs: map[string]*ssa.Function{},
 		closed: map[string][]types.Type{}, specPure: map[*ssa.Function]bool{}, repo: repo, modulePrefix: modulePath, defined: map[string]bool{}, trustedUsed: map[string]bool{}}
 	ld.eng = eng
